@@ -24,7 +24,7 @@ RULE = ('generated class models (typed signatures, inheritance, _yatiml_extra, e
         'then extras; enum members by name; string-likes and paths by str()), identical when dumped '
         'twice, and the object graph must be unchanged.  Non-trivial = the value contains a user object '
         'or a container.'
-        'Also: repeated JSON dumps of the same object with a failing dump in between.')
+        ' Also: repeated JSON dumps of the same object with a failing dump in between.')
 ASSUMPTIONS = ['PyYAML\'s emitter writes a scalar without a tag when the serializer marks it implicit and '
                'quotes it when its plain form would resolve differently (emitter analysis is PyYAML\'s)']
 
